@@ -1,5 +1,5 @@
 (* Main.v — dispatcher for the extracted model. *)
-From Model Require Export Run RunContainer.
+From Model Require Export Run RunContainer RunAPI.
 Open Scope Z_scope.
 
 Definition run (op : Z) (arg : V) : V :=
@@ -23,4 +23,6 @@ Definition run (op : Z) (arg : V) : V :=
   if op =? 37 then run_compactb arg else
   if op =? 38 then run_fs arg else
   if op =? 39 then run_access arg else
+  if op =? 40 then run_lookup arg else
+  if op =? 41 then run_tracks arg else
   fail EOther.
